@@ -14,9 +14,9 @@ import MM.Lemmas.C11
   * `C12_holds`               both, for every stored route of every reachable state.
 
   Convergence ("every agent learns every route") needs reliable delivery as a fairness hypothesis
-  and fresh sequence numbers (see C14); it is exercised by the differential run — the clean cases
-  of engine c12 end with `dump converged`, whose executable statement is `convergeChecks` — and is
-  not proved here.
+  and fresh sequence numbers (see C14): it is proved in MM/Props/C12Conv.lean (`C12_converges`,
+  `C12_converges_run`) and exercised on the real code by the clean cases of engine c12, which end
+  with `dump converged` (executable statement: `convergeChecks`).
 -/
 namespace MM.C12
 open MM.C11
